@@ -33,6 +33,8 @@ func checkC20(r *Report, p *Program) {
 	// the stored object with the freshly read one to decide whether anything changed
 	r20_7(r, p)
 	r12_10(r, p)
+	// "… and does not take the process down": what a lookup/hook call may answer with nil is tested before use (shared with C13)
+	lookupResultsChecked(r, p, "R20.8")
 }
 
 func r20_1(r *Report, p *Program) {
